@@ -48,10 +48,7 @@ class UnknownZone(Zone):
 @dataclass
 class InvalidZone(Zone):
     def is_subseteq(self, other: Zone) -> bool:
-        return isinstance(other, InvalidZone)
-
-    def join(self, other: Zone) -> Zone:
-        return self
+        return isinstance(other, UnknownZone) or type(other) is InvalidZone
 
 
 @dataclass
@@ -59,16 +56,16 @@ class InvalidSpecId(InvalidZone):
     spec_id: str
 
     def is_subseteq(self, other: Zone) -> bool:
-        return isinstance(other, InvalidSpecId) and (self.spec_id == other.spec_id)
+        if isinstance(other, InvalidSpecId):
+            return self.spec_id == other.spec_id
+
+        return isinstance(other, UnknownZone) or type(other) is InvalidZone
 
     def join(self, other: Zone) -> Zone:
-        if isinstance(other, InvalidSpecId):
-            if self.spec_id == other.spec_id:
-                return self
-            else:
-                return InvalidZone()
+        if isinstance(other, InvalidSpecId) and self.spec_id != other.spec_id:
+            return InvalidZone()
 
-        return Zone.bottom()
+        return super().join(other)
 
 
 @dataclass
@@ -76,7 +73,9 @@ class SpecZone(Zone):
     spec_id: str
 
     def is_subseteq(self, other: Zone) -> bool:
-        return isinstance(other, SpecZone) and (self.spec_id == other.spec_id)
+        return isinstance(other, UnknownZone) or (
+            isinstance(other, SpecZone) and (self.spec_id == other.spec_id)
+        )
 
 
 @dataclass
@@ -89,7 +88,7 @@ class GetItemOfZone(GetItemLike, Zone):
     index: Zone
 
     def is_subseteq(self, other: Zone) -> bool:
-        return (
+        return isinstance(other, UnknownZone) or (
             isinstance(other, GetItemOfZone)
             and self.zone.is_subseteq(other.zone)
             and self.index.is_subseteq(other.index)
@@ -102,7 +101,7 @@ class GetSubGridOfZone(GetItemLike, Zone):
     y_indices: Zone
 
     def is_subseteq(self, other: Zone) -> bool:
-        return (
+        return isinstance(other, UnknownZone) or (
             isinstance(other, GetSubGridOfZone)
             and self.zone.is_subseteq(other.zone)
             and self.x_indices.is_subseteq(other.x_indices)
